@@ -1050,7 +1050,7 @@ func (p *parser) primaryExpr() (Expr, error) {
 			indexParser := p.split(TokenRBracket)
 			var err error
 			idx.Index, err = indexParser.expr()
-			err = joinErrors(err, indexParser.endSplit())
+			err = joinErrors(makeErrorOpaque(err), indexParser.endSplit())
 			if tok, _ := p.next(); tok.Kind == TokenRBracket {
 				idx.Rbrack = tok.Span
 			} else {
